@@ -9,7 +9,10 @@ The driver (cxx/ref_driver.cpp) wires, with the tree's standard operators,
 
 and runs it under the simulation executor.  Case lines
 
-  1 start end shape op [prod]  prod = 1: the targets A, B, C are the three fields of ONE producer node's bundle output,
+  1 start end shape op [prod [wrap]]  wrap = 1..4 (ops 0, 1, 6, 7, 8): the consumers sit in their OWN nested graph and the
+                              dereferenced value reaches them through a nested pass-through: nested_<Below>(nested_<PassThrough>(sel));
+                              pass-through depth 1 (wrap 1, 3) / 2 (2, 4), consumer depth 1 (1, 2) / 2 (3, 4).
+                              prod = 1: the targets A, B, C are the three fields of ONE producer node's bundle output,
                               selected individually through getattr_ (identity of a target = (node, path));
                               0 / absent: outputs of separate source nodes.
                               shape 0 TS<Int>, 1 TSS<Int>, 2 TSD<Int,TS<Int>>;  op 0 if_then_else, 1 if_cmp,
@@ -238,6 +241,9 @@ def gen(rng, tier, prop):
     case = _gen(rng, tier, prop)
     if rng.random() < 0.45:
         case[0] = case[0][:5] + [1]
+    if case[0][4] in (0, 1, 6, 7, 8) and rng.random() < 0.3:
+        # consumers in their own nested graph behind a nested pass-through; mostly depth-1 pass-through (modelled)
+        case = with_wrap(case, rng.choice([1, 1, 1, 3, 3, 3, 2, 4]))
     return case
 
 
@@ -370,6 +376,25 @@ def enumerate_cases(prop):
                 yield with_prod(build_case(shape, op, sc))
     for pat in _chained_patterns(3):
         yield with_prod(build_case(0, 6, [{"ticks": {A, B, C}}] + pat))
+    # consumers in their OWN nested graph behind a nested pass-through (wrap 1..4): every pattern of <= 5 events (TS,
+    # pass-through depth 1, consumer depth 1 and 2), <= 4 (TSS); all scenarios of every selection kind and all four depths
+    for pat in _patterns(5):
+        if pat:
+            yield with_wrap(build_case(0, 0, pat), 1)
+            yield with_wrap(build_case(0, 0, pat), 3)
+    for pat in _patterns(4):
+        if pat:
+            yield with_wrap(build_case(1, 0, pat), 1)
+            yield with_wrap(build_case(0, 8, pat), 3)
+            yield with_wrap(with_prod(build_case(0, 0, pat)), 1)
+    for shape in (0, 1, 2):
+        for wr in (1, 2, 3, 4):
+            for op in (0, 1, 8):
+                for sc in scenarios(shape, op):
+                    yield with_wrap(build_case(shape, op, sc), wr)
+            for op in (6, 7):
+                for sc in chained_scenarios(op):
+                    yield with_wrap(build_case(shape, op, sc), wr)
     # chained selection: all scenarios, and EVERY pattern of <= 4 events over {c1=T, c1=F, c2=inner, c2=C, A ticks, B ticks}
     # after a fixed prefix that makes all three targets valid
     for shape in (0, 1, 2):
@@ -405,8 +430,7 @@ def parse_case(case):
         if l and l[0] == 2 and len(l) >= 4 and 0 <= l[1] < 8:
             if l[1] in wired and start <= l[2] < end:
                 script.setdefault(l[2], {})[l[1]] = l[3:]
-    if op in (3, 5) and start < end:
-        script.setdefault(start, {})        # first cycle of the nested graph (the sources are scheduled on start)
+    # (up to /repo 7c2072e the first cycle of a nested graph evaluated all its nodes; fixed by ed827a0)        # first cycle of the nested graph (the sources are scheduled on start)
     return start, end, shape, op, script
 
 
@@ -488,9 +512,48 @@ def oracle(prop, case, out):
     on the unchanged tree in almost every history (finding KF-C13-nested-export-lag): every failure on such a
     case is reported under the single kind `nested_export_lag`, its detail naming the specific failure."""
     fl = _oracle(prop, case, out)
-    if parse_case(case)[3] == 4:
+    if parse_case(case)[3] == 4 or wrap_of(case) in (2, 4):
         return [("crash", d) if k == "crash" else ("nested_export_lag", "[%s] %s" % (k, d)) for k, d in fl]
     return fl
+
+
+def wrap_of(case):
+    """seventh header field: 1..4 = the consumers sit in their OWN nested graph and the dereferenced value reaches
+    them through a nested pass-through: pass-through depth 1 (wrap 1, 3) / 2 (wrap 2, 4), consumer depth 1 (wrap
+    1, 2) / 2 (wrap 3, 4).  Only for ops 0, 1, 6, 7, 8."""
+    hdr = [l for l in case if l and l[0] == 1 and len(l) >= 3]
+    if not hdr or len(hdr[-1]) <= 6 or hdr[-1][6] not in (1, 2, 3, 4):
+        return 0
+    op = hdr[-1][4] if len(hdr[-1]) > 4 else 0
+    return hdr[-1][6] if op not in (3, 4, 5) else 0
+
+
+def with_wrap(case, k):
+    h = case[0][:5] + [case[0][5] if len(case[0]) > 5 else 0, k]
+    return [h] + case[1:]
+
+
+def _invalid_retarget_in(case):
+    """does the script retarget to a target that has never ticked (the window of KF-C13-passthrough-keeps-old-target)?"""
+    start, end, shape, op, script = parse_case(case)
+    des = Designation(op)
+    valid = set()
+    cur = None
+    for t in sorted(script):
+        ev = script[t]
+        valid |= {k for k in (A, B, C) if k in ev}
+        prev, cur = cur, des.step(ev)
+        if cur != prev and cur not in valid:
+            return True
+    return False
+
+
+def _canon_cycle_order(out):
+    """lines of one cycle in a fixed order (the reference watcher sits in the root graph, wrapped consumers deeper)"""
+    def key(l):
+        t = l[2] if l[0] in (20, 21) else l[1]
+        return (t, {21: 0, 20: 1, 22: 2}.get(l[0], 9), l[1] if l[0] in (20, 21) else 0)
+    return sorted(out, key=key)
 
 
 def agree(case, impl_out, model_out):
@@ -498,6 +561,18 @@ def agree(case, impl_out, model_out):
     defective, see the finding); those cases are checked by the oracle only."""
     if parse_case(case)[3] == 4:
         return isinstance(impl_out, list)
+    wrap = wrap_of(case)
+    if wrap:
+        # the nested pass-through is an EXPORT (forwarding link): depth 2 lags (KF-C13-nested-export-lag), keyed
+        # retargets lose their removals (KF-C13-nested-export-keyed-diff), a retarget to a never-ticked target keeps
+        # the old one (KF-C13-passthrough-keeps-old-target).  The model (plain contract + the clamp of the nested
+        # schedule request) is compared where none of these applies: scalar targets, pass-through depth 1, no
+        # retarget to a never-ticked target; modulo the order of the lines of one cycle.
+        if not isinstance(impl_out, list):
+            return False
+        if wrap in (2, 4) or parse_case(case)[2] != 0 or _invalid_retarget_in(case):
+            return True
+        return isinstance(model_out, list) and _canon_cycle_order(impl_out) == _canon_cycle_order(model_out)
     return isinstance(impl_out, list) and isinstance(model_out, list) and impl_out == model_out
 
 
@@ -542,8 +617,11 @@ def _oracle(prop, case, out):
     last_tick = {A: 0, B: 0, C: 0}
     cur = None                                  # currently designated target
     des = Designation(op)
+    wrap = wrap_of(case)
+    fw = None                                   # wrapped scalar: the target the pass-through's export is bound to
     for t in times:
         ev = script[t]
+        cycle_start = len(fails)
         before = {k: dict(v) for k, v in contents.items()}
         stale_before = {k: (set(last_removed[k]) if last_tick[k] < t else set()) for k in (A, B, C)}
         ticked = set()
@@ -558,7 +636,7 @@ def _oracle(prop, case, out):
         cur = des.step(ev)
         retarget = cur != prev_sel
         poke = 7 in ev
-        force = op in (3, 5) and t == start      # the nested graph holding the consumers evaluates them all in its first cycle
+        force = False and op in (3, 5) and t == start      # the nested graph holding the consumers evaluates them all in its first cycle
         at = {cid: cons.get((cid, t)) for cid in (0, 1, 2, 3)}
         where = "t=%d (designated %s -> %s, ticked %s)" % (t, prev_sel, cur, sorted(ticked))
 
@@ -668,6 +746,27 @@ def _oracle(prop, case, out):
             fails.append(("nested_first_cycle", "consumers 0/1 inside the nested graph not evaluated in its first cycle, " + where))
         if poke and at[1] is None:
             fails.append(("poke_missed", "consumer 1 not evaluated on poke, " + where))
+        if wrap in (1, 3):
+            # KNOWN FINDINGS of the nested pass-through (an export / forwarding link), depth 1:
+            fw_before = fw
+            if cur is not None and valid[cur]:
+                fw = cur
+            elif shape != 0 and retarget and prev_sel is not None and valid[prev_sel]:
+                fw = cur                        # a keyed retarget away from a valid target notifies even if the new one is not
+            if fw_before != prev_sel or fw != cur:
+                # a SILENT retarget (to a never-ticked target; keyed: from one too) left the export on the OLD target;
+                # until the new target first ticks the consumers keep reading the old one and receiving its ticks
+                fails[cycle_start:] = [(k if k in ("crash", "trace_shape") else "passthrough_keeps_old_target", "[%s] %s" % (k, d))
+                                       for k, d in fails[cycle_start:]]
+            if shape != 0 and retarget:
+                new = contents[cur] if (cur is not None and valid[cur]) else {}
+                rel = []
+                for k, d in fails[cycle_start:]:
+                    # the delta of a keyed retarget seen through the export is unreliable: all new contents as added
+                    # without removals, or only the new target's own tick delta, or (consumer depth 2) nothing at all
+                    ok = k == "keyed_diff"
+                    rel.append(("nested_export_keyed_diff", "[%s] %s" % (k, d)) if ok else (k, d))
+                fails[cycle_start:] = rel
         # ---- direct readers: each target's own reader sees exactly its ticks (the reference machinery does not disturb them)
         for k in (A, B, C):
             dr = direct.get((k, t))
@@ -682,7 +781,8 @@ PROP_KINDS = {
     "C13": {"deref_value", "deref_delta", "deref_lmt", "missed_wake", "retarget_no_eval", "retarget_not_modified", "retarget_delta",
             "keyed_diff", "keyed_diff_stale_removed", "spurious_ref_tick", "ref_tick_missing", "unselected_leak", "spurious_eval", "spurious_modified",
             "spurious_cycle", "passive_woken", "poke_missed", "evaluated_twice", "ran_not_valid", "direct_reader", "trace_shape",
-            "nested_export_lag", "nested_first_cycle", "nested_ref_param_spurious_eval"},
+            "nested_export_lag", "nested_first_cycle", "nested_ref_param_spurious_eval",
+            "passthrough_keeps_old_target", "nested_export_keyed_diff"},
 }
 
 
@@ -735,6 +835,9 @@ def _events(case):
     if op == 8 or (hdr and len(hdr[-1]) > 5 and hdr[-1][5] == 1):
         res["sibling_targets"] = 1
         res["sibling_retargets"] = res["retargets"]
+    w = wrap_of(case)
+    if w:
+        res["wrap_%d" % w] = 1
     res["shape_%d" % shape] = 1
     res["op_%d" % op] = 1
     return res
